@@ -70,6 +70,20 @@ def problems(p):
     return [e for e in p.events if e[0] in ("load-unknown", "store-unknown", "read-uninit")]
 
 
+def narrowings(c, f, ps):
+    """a length-derived value truncated to a narrower integer without a bound on the path: wrong for large lengths"""
+    seen = set()
+    for p in ps:
+        for e in p.events:
+            if e[0] == "narrowing" and e[1] not in seen:
+                seen.add(e[1])
+                I = f.insts[e[1]]
+                c.ob(False, "ADVANCE", "length-narrowed#%s" % I.id, "",
+                     "the length-derived value %s is truncated to %d bits with no bound on this path: for lengths >= 2^%d the number of blocks processed is wrong"
+                     % (e[3], e[2], e[2]), where=relpath(I.where))
+    return len(seen)
+
+
 # ---------------------------------------------------------------------------
 def check_setup(ck, mod, ks, label, rulemap):
     klen = int(ks)
@@ -237,6 +251,8 @@ def check_cipher(ck, mod, f, label, rulemap):
     c = Ctx(ck, f, label, rulemap)
     names = spec_names(ks, kind)
     ex, ps = run_paths(f, klen)
+    if narrowings(c, f, ps):
+        return 1
     if len(f.loops) != 1:
         raise Broken("%s: expected exactly one loop, found %d: unrecognised shape" % (f.name, len(f.loops)))
     hdr = f.loops[0]["header"]
@@ -307,6 +323,9 @@ def check_cipher(ck, mod, f, label, rulemap):
             # cursor initialisation
             inits = {I.id: p.env.get(("init", I.id)) for I in ptrs + ints}
             want_n = Lf.s(A["mlen"]) if enc else Lf({A["clen"]: 1, 1: -8})
+            ini_n = inits[ints[0].id]
+            if not is_word(ini_n) and any(isinstance(s_, tuple) and s_[0] in ("quo", "rem", "trunc") for s_ in ini_n):
+                raise Broken("%s: the data loop counts blocks with a derived counter (%s) instead of the remaining length: loop shape not supported by the lock-step rule" % (f.name, ini_n))
             okc = set(repr(inits[I.id]) for I in ptrs) == {repr(Lf.s(A["m"])), repr(Lf.s(A["c"]))} and inits[ints[0].id] == want_n
             c.ob(okc, "ADVANCE", "cursor-init", "cursors start at m and c, remaining length at %s" % want_n,
                  "loop-carried cursors are %s and remaining %s; expected cursors starting at m and c that advance with the data (a cursor that is not loop-carried never advances)"
